@@ -57,8 +57,6 @@ Definition observe (e : env) (s : inst) (err reload : bool) (runeq : bool) : sob
 
 (* ---- equality of observations *)
 Definition n2_eqb := pair_eqb.
-Definition optN_eqb (a b : option N) : bool :=
-  match a, b with Some x, Some y => x =? y | None, None => true | _, _ => false end.
 Definition sobs_eqb (a b : sobs) : bool :=
   Bool.eqb (o_err a) (o_err b) && Bool.eqb (o_reload a) (o_reload b) && Bool.eqb (o_runeq a) (o_runeq b) &&
   list_eqb (fun p q => (fst p =? fst q) && list_eqb n2_eqb (snd p) (snd q)) (o_files a) (o_files b) &&
